@@ -160,6 +160,35 @@ func orderingGuards(fn *ssa.Function, v ssa.Value, at ssa.Instruction) bool {
 	return false
 }
 
+// orderingGuardsOfTheValue is orderingGuards for comparisons of v itself or of
+// something computed from v (not of something v was computed from).
+func orderingGuardsOfTheValue(fn *ssa.Function, v ssa.Value, at ssa.Instruction) bool {
+	related := func(s ssa.Value) bool {
+		if _, isK := s.(*ssa.Const); isK {
+			return false
+		}
+		return s == v || core.SameStorage(s, v) || core.DependsOn(s, func(w ssa.Value) bool { return w == v || core.SameStorage(w, v) })
+	}
+	for _, b2 := range fn.Blocks {
+		if len(b2.Instrs) == 0 || b2 == at.Block() || !b2.Dominates(at.Block()) {
+			continue
+		}
+		iff, ok := b2.Instrs[len(b2.Instrs)-1].(*ssa.If)
+		if !ok {
+			continue
+		}
+		for _, bo := range condLeaves(iff.Cond) {
+			switch bo.Op {
+			case token.LSS, token.LEQ, token.GTR, token.GEQ:
+				if related(bo.X) || related(bo.Y) {
+					return true
+				}
+			}
+		}
+	}
+	return false
+}
+
 // condLeaves returns the comparison that decides an If (one leaf: short-circuit
 // conditions are separate blocks in SSA).
 func condLeaves(v ssa.Value) []*ssa.BinOp {
@@ -182,6 +211,23 @@ func rangeCheckedBy(v ssa.Value, lo, hi *big.Int) (string, bool) {
 			continue
 		}
 		cal := call.Call.StaticCallee()
+		// strconv.ParseInt / ParseUint with a constant bit size refuse what does not fit that size
+		if cal != nil && cal.Pkg != nil && cal.Pkg.Pkg.Path() == "strconv" && (cal.Name() == "ParseInt" || cal.Name() == "ParseUint") && len(call.Call.Args) == 3 {
+			if k, ok := call.Call.Args[2].(*ssa.Const); ok && k.Value != nil && k.Value.Kind() == constant.Int {
+				bits := k.Int64()
+				if bits > 0 && bits <= 64 {
+					plo, phi := big.NewInt(0), new(big.Int).Sub(new(big.Int).Lsh(big.NewInt(1), uint(bits)), big.NewInt(1))
+					if cal.Name() == "ParseInt" {
+						phi = new(big.Int).Sub(new(big.Int).Lsh(big.NewInt(1), uint(bits-1)), big.NewInt(1))
+						plo = new(big.Int).Neg(new(big.Int).Lsh(big.NewInt(1), uint(bits-1)))
+					}
+					if plo.Cmp(lo) >= 0 && phi.Cmp(hi) <= 0 {
+						return "strconv." + cal.Name() + " with that bit size", true
+					}
+					return "strconv." + cal.Name() + " with a bit size whose range is not the target's", false
+				}
+			}
+		}
 		if cal == nil || cal.Blocks == nil || !core.RepoFunc(cal) {
 			continue
 		}
@@ -319,6 +365,29 @@ func converterNarrowingIsRangeChecked(c *core.Ctx) {
 		}
 		helpers = append(helpers, fn)
 	}
+	// ... and the builtins that make a script value of a narrower kind (byte,
+	// byte_slice, chr) out of a script number: the script asked for a value of
+	// that kind, not for the number modulo 256.  (A conversion to a full-width
+	// integer, int(3.7), is the truncation that the builtin is for.)
+	builtinFns := map[*ssa.Function]bool{}
+	for _, fn := range repoFns(p, "builtins") {
+		if fn.Parent() == nil && fn.Signature.Recv() == nil && fn.Signature.Params().Len() == 2 && fn.Signature.Variadic() &&
+			fn.Signature.Results().Len() == 1 && core.IsNamed(fn.Signature.Results().At(0).Type(), pkgPath("object"), "Object") {
+			builtinFns[fn] = true
+			helpers = append(helpers, fn)
+		}
+	}
+	narrowTarget := func(cv *ssa.Convert) bool {
+		db, ok := cv.Type().Underlying().(*types.Basic)
+		if !ok {
+			return false
+		}
+		switch db.Kind() {
+		case types.Uint8, types.Int8, types.Uint16, types.Int16, types.Uint32, types.Int32:
+			return true
+		}
+		return false
+	}
 	n := 0
 	for _, fn := range append(append(append([]*ssa.Function{}, to...), from...), helpers...) {
 		var lossy []*ssa.Convert
@@ -326,6 +395,9 @@ func converterNarrowingIsRangeChecked(c *core.Ctx) {
 		for _, b := range fn.Blocks {
 			for _, in := range b.Instrs {
 				if cv, ok := in.(*ssa.Convert); ok && lossyIntegerConversion(cv) && !smallUnsigned(fn, cv) {
+					if builtinFns[fn] && !narrowTarget(cv) {
+						continue
+					}
 					lossy = append(lossy, cv)
 				}
 				// float64 to float32: what is beyond the range becomes an infinity
@@ -353,7 +425,14 @@ func converterNarrowingIsRangeChecked(c *core.Ctx) {
 		for _, cv := range lossy {
 			db := cv.Type().Underlying().(*types.Basic)
 			lo, hi, _ := intRange(db)
-			if orderingGuards(fn, cv.X, cv) {
+			if !builtinFns[fn] && orderingGuards(fn, cv.X, cv) {
+				how = "a range test"
+				continue
+			}
+			// (in a builtin the test must be of the number itself: the loop
+			// that walks the items of a list compares its counter, on which the
+			// item depends, and says nothing about the item)
+			if builtinFns[fn] && orderingGuardsOfTheValue(fn, cv.X, cv) {
 				how = "a range test"
 				continue
 			}
